@@ -23,6 +23,10 @@ CLAIMS = {
   TRUST + "Expression.Execute is assumed to be a function of expression and pair (interface contract); Put/BatchPut/Delete/BatchDelete semantics are A-STORE. Parser/validators for PUT and REMOVE are not yet under contract.",
   "DESIGN.md section 5, C12"),
 
+ "C15": ("proof",
+  "The recursive-descent expression parser is under contract: Token.Precedence and BuildOp are proved equal to the documented operator table, and parseBinaryExpr and its eleven helpers are proved, for every token sequence, to build only binary nodes whose left operand binds at least as strongly and whose right operand binds strictly more strongly than the node's operator (ghost binding level, parentheses / calls / indexes / lists at the top level), to stop exactly in front of a weaker operator, and to parse BETWEEN bounds above the comparison level. Obligations are generated from the go/ssa form of the working tree on every run (defer, closures and the constant operator map included) and discharged by z3 / cvc5.",
+  TRUST + "Covers the binding-strength / associativity half of the property. The String()/re-parse round trip, case folding and in-order token consumption are not covered (see evidence). The ghost level is maintained by ghost statements in the contract file.",
+  "DESIGN.md section 5, C15"),
  "C18": ("proof",
   "Planner tightness and scan confinement: each key-pinning atom yields exactly its documented scan type and literals, AND returns a region inside one operand's region, disjoint operands give EMPTY, Optimize() maps scan types to the matching plan kinds, and the row-mode scan plans are proved to read only keys of their region plus at most the key that ends it (MultiGetPlan: one Get per listed key; EmptyResultPlan: no storage call).",
   TRUST + "Cursor behaviour (Seek to first key >= p, strictly ascending snapshot) is A-STORE. The per-construct statements compose to the property on paper. Batch forms of the scans are not yet under contract.",
